@@ -126,13 +126,42 @@ def r121(ctx, rid="R12.1"):
                    f"the stored {fld} is built from NodeState.{got}: after a restart the counted amounts of the two controls are "
                    f"mixed up (a spec mismatch then resets the window)", where=f"{sb_.file}:{st.line}", sample=f"{fld} <- state.{fld}")
     ctx.floor(rid, "NodeStateEntry literal in From<&NodeState>", nlit, 1)
+    # every update_spec pairs a control with the policy's spec of the same kind (fee control <- fee spec, payment control
+    # <- global spec): a mismatched spec resets the control, i.e. forgets what was counted
+    nsp = 0
+    for fnm in (LS + "node::Node::new_full", LS + "node::Node::update_velocity_controls"):
+        fb = p.fn(fnm)
+        fvn = fnview(ctx, fb).named()
+        for bi, c in fb.calls():
+            if not (c.callee and c.callee.name == f"{VC}::update_spec"):
+                continue
+            nsp += 1
+            recv, spec = render(fvn.expr(c.args[0])), render(fvn.expr(c.args[1]))
+            is_fee = "fee_velocity_control" in recv
+            ok = ("Policy::fee_velocity_control(" in spec) if is_fee else ("Policy::global_velocity_control(" in spec)
+            ctx.ob(rid, ok, f"{fnm}/update_spec/{'fee' if is_fee else 'payment'}",
+                   f"`{fnm}` re-specs the {'fee' if is_fee else 'payment'} velocity control `{recv[-40:]}` with `{spec[:70]}`: a spec of the "
+                   "other kind does not match and resets the control (the counted amount is forgotten, the limit no longer binds)",
+                   where=f"{fb.file}:{c.line}", sample="fee control <- policy.fee_velocity_control(), payment control <- policy.global_velocity_control()")
+    ctx.floor(rid, "update_spec calls in new_full / update_velocity_controls", nsp, 4)
     # update_spec: reset only when !spec_matches
     ub = p.fn(f"{VC}::update_spec")
     uv = fnview(ctx, ub, policy=False)
-    ws = [(bi, s.line) for bi in uv.live_blocks() for s in ub.stmts(bi)
-          if any(isinstance(pr, tuple) and pr[0] == "f" and pr[2] in ("buckets", "start_sec", "limit") and
-                 pr[1].endswith("VelocityControl") for pr in s.place.proj)]
-    ctx.floor(rid, "writes in update_spec", len(ws), 2)
+    # writes to the control: a field assignment, a whole-value assignment `*self = ..`, or a `&mut self.field` handed on
+    ws = []
+    for bi in uv.live_blocks():
+        for s in ub.stmts(bi):
+            fld = any(isinstance(pr, tuple) and pr[0] == "f" and pr[2] in ("buckets", "start_sec", "limit", "bucket_interval") and
+                      pr[1].endswith("VelocityControl") for pr in s.place.proj)
+            whole = s.place.local == 1 and tuple(s.place.proj) == ("*",)
+            mutb = s.kind == "a" and s.rv.op == "ref" and s.rv.a and s.rv.place is not None and s.rv.place.local == 1 and \
+                any(isinstance(pr, tuple) and pr[0] == "f" and pr[2] in ("buckets", "start_sec") for pr in s.rv.place.proj)
+            if fld or whole or mutb:
+                ws.append((bi, s.line))
+        t = ub.term(bi)
+        if t.kind == "call" and t.call.dest.local == 1 and tuple(t.call.dest.proj) == ("*",):
+            ws.append((bi, t.call.line))
+    ctx.floor(rid, "spec_matches test in update_spec", len([1 for bi, c in ub.calls() if c.callee and c.callee.name == f"{VC}::spec_matches"]), 1)
     me = set()
     for bi, c in ub.calls():
         if c.callee and c.callee.name == f"{VC}::spec_matches":
@@ -140,7 +169,8 @@ def r121(ctx, rid="R12.1"):
     live = uv.reach(0, cut_edges=uv.result_edges(*[(bi, c) for bi, c in ub.calls() if c.callee and c.callee.name == f"{VC}::spec_matches"][0], "err")) if me else set(range(uv.n))
     bad = [w for w in ws if w[0] in live]
     ctx.ob(rid, bool(me) and not bad, f"{ub.name}/reset-only-on-change",
-           "update_spec clears the counted buckets even when the spec is unchanged (every restart would reset the window)",
+           "update_spec rewrites the control (buckets, window start) even when the spec is unchanged: every restart would reset or "
+           "misplace the window",
            where=f"{ub.file}:{ub.line}", sample="bucket reset unreachable when spec_matches")
 
 
